@@ -6,9 +6,11 @@ import random
 import checker_cluster as K
 import common as C
 import gen_checker as G
+import gen_run
+import run_cluster as R
 
 PROP = "C13"
-CONE = sorted(set(K.MODEL_FILES + ["Gen/Generated.v", "Proofs/SkeletonParity.v", "Proofs/CheckerFrame.v",
+CONE = sorted(set(K.MODEL_FILES + R.MODEL_FILES + ["Gen/Generated.v", "Proofs/SkeletonParity.v", "Proofs/CheckerFrame.v",
                                    "Proofs/CheckerDispatch.v", "Props/C13.v"]))
 RULE = ("every generated case (function / method / static / class method; chains of 1-3 classes; conditions and "
         "captures that are plain, coroutine functions or return awaitables) is rendered twice: with `async def` and "
@@ -28,11 +30,32 @@ def plainify(case):
     return c
 
 
+RULE_R = ("programs of coroutine functions and of classes with invariants and async methods that await each other - "
+          "also methods of the same object, where the invariant wrapper steps aside - driven by hand: every operation shows "
+          "the contract evaluations and outcomes of the model, which knows no difference between def and async def (spec_C11).")
+
+
+def gen_async_programs(rng, n):
+    cases = []
+    while len(cases) < n:
+        g = gen_run.GenRun(rng, is_async=True, faults=0.1, awaits=0.5)
+        c = g.case()
+        if gen_run.small_enough(c):
+            cases.append(c)
+    return cases
+
+
 def run(tier, replay=None):
     out, build, problems = K.begin(PROP, tier, CONE, "Props/C13.v")
     if not build.ok_for(K.MODEL_FILES):
         out.violation("the executable model does not build", {"problems": problems}, found_input=False)
         return out.finish()
+    is_run_replay = bool(replay) and "prog" in json.load(open(replay)).get("case", {})
+    if not replay or is_run_replay:
+        R.run_into(out, build, problems, PROP, tier, "spec_C11", gen_async_programs, 300, 6000, RULE_R, replay=replay)
+    if is_run_replay:
+        return out.finish()
+    run_cov = dict(out.coverage)
     rng = random.Random(C.seed() * 31337 + 13)
     n = 500 if tier == "quick" else 10000
     g = G.Gen(rng)
@@ -88,5 +111,6 @@ def run(tier, replay=None):
         "samples": [{"kind": c["kind"], "async_events": [e[:3] for e in a.get("events", [])], "outcome": a.get("outcome")}
                     for c, a in list(zip(base, oa))[:2]],
         "pairs": len(base), "pairs_with_coroutine_conditions": ncoro, "traces_validated_against_impl": 3 * len(base),
-        "parity_failures": len(parity_fail), "disagreements": len(disagree)})
+        "parity_failures": len(parity_fail), "disagreements": len(disagree),
+        "async_programs_of_the_run_cluster": {k: run_cov.get(k) for k in ("evaluations", "distinct_nontrivial", "rule") if k in run_cov}})
     return out.finish()
